@@ -321,7 +321,7 @@ const ALLK: [Kind; 21] = [
 const SHIFTK: [Kind; 14] = [Kind::Sma, Kind::Ema, Kind::Wma, Kind::Min, Kind::Max, Kind::Sd, Kind::Mad, Kind::Tr, Kind::Atr, Kind::Macd, Kind::Bb, Kind::Kc, Kind::Ce, Kind::FastStoch];
 
 fn strategy(forced_k: Option<i32>) -> BoxedStrategy<Case> {
-    let pow2 = (cfg_among(&ALLK, 128, multiplier_any), any::<bool>(), bar_stream(true, 1, 300), match forced_k {
+    let pow2 = (cfg_among(&ALLK, 128, multiplier_any), any::<bool>(), bar_stream(true, 1, 420), match forced_k {
         Some(k) => Just(k).boxed(),
         None => (-40i32..=40).boxed(),
     })
@@ -329,8 +329,8 @@ fn strategy(forced_k: Option<i32>) -> BoxedStrategy<Case> {
     if forced_k.is_some() {
         return pow2.boxed();
     }
-    let scale = (cfg_among(&ALLK, 128, multiplier_any), any::<bool>(), bar_stream(true, 1, 300), -4.0f64..4.0).prop_map(|(cfg, scalar, s, e)| Case { cfg, scalar, bars: s.bars, tr: Tr::Scale(X(10f64.powf(e))) });
-    let shift = (cfg_among(&SHIFTK, 128, multiplier_any), any::<bool>(), prop_oneof![bar_stream(true, 1, 300), bar_stream(false, 1, 300)], 0.0f64..1.0, any::<bool>()).prop_map(|(cfg, scalar, s, u, neg)| {
+    let scale = (cfg_among(&ALLK, 128, multiplier_any), any::<bool>(), bar_stream(true, 1, 420), -4.0f64..4.0).prop_map(|(cfg, scalar, s, e)| Case { cfg, scalar, bars: s.bars, tr: Tr::Scale(X(10f64.powf(e))) });
+    let shift = (cfg_among(&SHIFTK, 128, multiplier_any), any::<bool>(), prop_oneof![bar_stream(true, 1, 420), bar_stream(false, 1, 300)], 0.0f64..1.0, any::<bool>()).prop_map(|(cfg, scalar, s, u, neg)| {
         let mn = s.bars.iter().map(|b| b.l).fold(f64::INFINITY, f64::min);
         let mx = s.bars.iter().map(|b| b.h).fold(0.0f64, f64::max);
         let d = if neg { -0.9 * mn * u } else { mx * 10f64.powf(-3.0 + 6.0 * u) };
